@@ -8,8 +8,6 @@ Open Scope Q_scope.
 
 Definition seg := (Q * Q)%type.
 
-Definition idx (i : nat) : Q := inject_Z (Z.of_nat i).
-
 Fixpoint seg_loop (fuel : nat) (i : nat) (s e dur hop : Q) (incl : bool) : list seg :=
   match fuel with
   | O => []
